@@ -346,7 +346,7 @@ def groups(tier):
     if tier == "thorough":
         opts += ["factory2", "two-k", "k-inferral", "ku-factory", "finite-mixed"]
     for db in ("base", "forget", "forest"):
-        for opt in opts:
+        for opt in opts + (["opaque", "opaque-k"] if db == "forest" else []):
             gs.append({"name": "eq-%s-%s-S2" % (db, opt), "fn": "check_opt", "shape": {"db": db, "opt": opt, "S": 2},
                        "cond_timeout": 2400.0, "path_timeout": 200.0, "expect_space": n2, "weight": n2})
     for db in ("base", "forest"):
